@@ -295,7 +295,35 @@ func eq(a []tlog.Hash, b []rfc6962.Hash) bool {
 	return true
 }
 
+// FirstCalls is the menu of the fresh-process call-order check.
+func FirstCalls() []fw.Call {
+	var out []fw.Call
+	for _, c := range []struct{ t, n int64 }{{7, 3}, {13, 0}, {8, 7}, {1, 0}} {
+		c := c
+		out = append(out, fw.Call{Name: fmt.Sprintf("record(t=%d,n=%d)", c.t, c.n), F: func() string {
+			lg, _ := tlogx.Build(tlogx.Pattern(0, int(c.t)))
+			p, err := tlog.ProveRecord(c.t, c.n, lg)
+			m1, a1 := agree("record", p, c.t, lg.Root(int(c.t)), c.n, tlog.Hash(lg.Ref.Leaves[c.n]))
+			bad := append([]tlog.Hash(nil), p...)
+			if len(bad) > 0 {
+				bad[0][0] ^= 1
+			}
+			m2, a2 := agree("record", bad, c.t, lg.Root(int(c.t)), c.n, tlog.Hash(lg.Ref.Leaves[c.n]))
+			return fmt.Sprint(err, m1, a1, m2, a2)
+		}})
+		out = append(out, fw.Call{Name: fmt.Sprintf("tree(t=%d,n=%d)", c.t, c.n+1), F: func() string {
+			lg, _ := tlogx.Build(tlogx.Pattern(0, int(c.t)))
+			p, err := tlog.ProveTree(c.t, c.n+1, lg)
+			m1, a1 := agree("tree", p, c.t, lg.Root(int(c.t)), c.n+1, lg.Root(int(c.n+1)))
+			m2, a2 := agree("tree", append(append([]tlog.Hash(nil), p...), tlog.Hash{}), c.t, lg.Root(int(c.t)), c.n+1, lg.Root(int(c.n+1)))
+			return fmt.Sprint(err, m1, a1, m2, a2)
+		}})
+	}
+	return out
+}
+
 func Run(r *fw.Run) {
+	defer fw.FirstCallOrders(r, r.ID, FirstCalls(), nil)
 	tmax := r.Pick(130, 300)
 	r.Bounds["t_max"] = tmax
 	r.Bounds["patterns"] = []string{"all distinct", "all equal", "period 3", "record lengths 0..65536 around block and buffer sizes (t <= 48)"}
